@@ -21,16 +21,63 @@ CLAUSES = ["Unfit", "Returns", "Exact", "StructureOK", "NonCrossingOK", "InsideP
 MAXDEN = 10 ** 4
 CAP = 20
 WORKERS = 6
-# End points shared by two segments are given as ONE point column (what every caller in porepy does: the
-# point set is uniquified before the call).  With DUP_COLUMNS = True a shared end point may also be given as
-# two coincident columns; porepy then leaves the two columns unmerged for some orientations (reported to the
-# main session as an observation outside the stated family; the matcher recognises exactly those cases).
-DUP_COLUMNS = False
+# Point columns: a shared end point is given either as ONE column (what porepy's callers do: they uniquify the
+# point set first) or as separate coincident columns, one per segment ("any set of segments" given as (p, e) with
+# repeated points is valid input: the function uniquifies points itself).  A moderate share of the cases uses
+# separate columns for all or for some end points; for every enumerated PAIR that shares an end point all 8
+# orientation / order variants with separate columns are run as well.
+DUP_COLUMNS = True
+
+
+def _contact(a, b, c, d):
+    """Exact integer contact class of two lattice segments: none | endpoints | other (matcher use only)."""
+    def cr(u, v):
+        return u[0] * v[1] - u[1] * v[0]
+
+    def on(q, s, t):
+        u, w = (t[0] - s[0], t[1] - s[1]), (q[0] - s[0], q[1] - s[1])
+        return cr(u, w) == 0 and 0 <= u[0] * w[0] + u[1] * w[1] <= u[0] * u[0] + u[1] * u[1]
+
+    u, v, w = (b[0] - a[0], b[1] - a[1]), (d[0] - c[0], d[1] - c[1]), (c[0] - a[0], c[1] - a[1])
+    den = cr(u, v)
+    if den != 0:
+        tn, sn = cr(w, v), cr(w, u)
+        sg = 1 if den > 0 else -1
+        if not (0 <= sg * tn <= sg * den and 0 <= sg * sn <= sg * den):
+            return "none"
+        return "endpoints" if tn in (0, den) and sn in (0, den) else "other"
+    if cr(w, u) != 0:
+        return "none"
+    common = [q for q in (a, b) if on(q, c, d)] + [q for q in (c, d) if on(q, a, b)]
+    if not common:
+        return "none"
+    return "endpoints" if len({tuple(q) for q in common}) == 1 and all(q in (a, b) and q in (c, d) for q in common) else "other"
 
 
 def _dup_point_columns(v):
-    pts = [tuple(q) for q in v["in"]["pts"]]
-    return len(set(pts)) < len(pts) and v["clause"] in ("NonCrossing", "NoDuplicates")
+    """split_intersecting_segments_2d returned its input unchanged although end points shared by two segments
+    are given as coincident but distinct point columns.  Narrow: clause NonCrossing / NoDuplicates only; output
+    = input (same points, same edges, identity map); the input segments touch each other only at common end
+    points (no crossing, T-junction or overlap was missed) and no two input segments coincide, so the only
+    failing clause instances are coincident-but-distinct point indices at shared end points."""
+    if v["clause"] not in ("NonCrossing", "NoDuplicates"):
+        return False
+    inp, out = v["in"], v["out"]
+    pts = [list(q) for q in inp["pts"]]
+    if len({tuple(q) for q in pts}) == len(pts) or out["err"] or not out["ok"]:
+        return False
+    if [[x[0], y[0]] for x, y in out["pts"]] != pts or any(x[1] != 1 or y[1] != 1 for x, y in out["pts"]):
+        return False
+    if out["edges"] != inp["segs"] or out["map"] != list(range(1, len(inp["segs"]) + 1)):
+        return False
+    segs = [(pts[s["s"] - 1], pts[s["e"] - 1]) for s in inp["segs"]]
+    for i in range(len(segs)):
+        for j in range(i):
+            if {tuple(segs[i][0]), tuple(segs[i][1])} == {tuple(segs[j][0]), tuple(segs[j][1])}:
+                return False
+            if _contact(*segs[i], *segs[j]) == "other":
+                return False
+    return True
 
 
 MATCHERS = {"dup_point_columns": _dup_point_columns}
@@ -39,6 +86,7 @@ MATCHERS = {"dup_point_columns": _dup_point_columns}
 def build_input(segs, flips, order, shared, tags):
     """segs: list of ((x,y),(x,y)); returns in-record {pts, segs} with 1-based indices."""
     pts, out = [], []
+    share = iter(shared if isinstance(shared, list) else [bool(shared)] * (2 * len(order)))
     for k in order:
         a, b = segs[k]
         if flips[k]:
@@ -46,7 +94,7 @@ def build_input(segs, flips, order, shared, tags):
         idx = []
         for q in (a, b):
             q = [int(q[0]), int(q[1])]
-            if shared and q in pts:
+            if next(share) and q in pts:
                 idx.append(pts.index(q) + 1)
             else:
                 pts.append(q)
@@ -87,7 +135,9 @@ def _variant(rng, n):
     order = list(range(n))
     rng.shuffle(order)
     base = rng.choice((10, 1, 5))
-    return dict(flips=[rng.random() < 0.5 for _ in range(n)], order=order, shared=(not DUP_COLUMNS) or rng.random() < 0.6,
+    r = rng.random()
+    shared = True if (r < 0.6 or not DUP_COLUMNS) else (False if r < 0.85 else [rng.random() < 0.5 for _ in range(2 * n)])
+    return dict(flips=[rng.random() < 0.5 for _ in range(n)], order=order, shared=shared,
                 tags=[[base + k, (3 * k + 1) % 4] for k in range(n)])
 
 
@@ -167,13 +217,16 @@ def run(ctx):
     ctx.rule = ("one case = one call of split_intersecting_segments_2d on a set of distinct non-degenerate lattice segments; "
                 "TLC enumerates every set with a contact: pairs in {0..3}^2 and triples in {0..2}^2 (quick), also all "
                 "triples in {0..3}^2 with a contact (thorough); seeded sets of 3-4 segments in {0..4}^2 are added; "
-                "orientation, order, shared/separate end-point columns and tags are drawn by the seeded rng; classes = "
+                "orientation, order and tags are drawn by the seeded rng; 60% of the cases give a shared end point as one "
+                "point column, 25% give every end point its own column, 15% mix; every enumerated pair with a common end "
+                "point (quick: every 8th) is also run with separate columns in all 8 orientations/orders; classes = "
                 "(number of segments, kinds of contact present)")
     ctx.assumptions = ["integer end points; distinct, non-degenerate segments (a set)",
                        "cases whose output needs a common denominator beyond the 32-bit-safe range are counted inconclusive"]
     plans = [(3, 2, True), (2, 3, True)] if ctx.quick else [(3, 2, False), (2, 3, False), (3, 3, True)]
     cases = []
     res = _enumerate(ctx, plans)
+    n_end = 0
     for nseg, box, only in plans:
         recs = sorted((r for r in res.records if (r["nseg"], r["box"]) == (nseg, box)), key=lambda r: r["segs"])
         if not recs:
@@ -183,6 +236,13 @@ def run(ctx):
             segs = [(tuple(s[0]), tuple(s[1])) for s in r["segs"]]
             cases.append(make_case(segs, _variant(ctx.rng, nseg)))
             ctx.case(key=(nseg, tuple(sorted(r["kinds"]))), nontrivial=bool(r["kinds"]))
+            n_end += nseg == 2 and "endpoints" in r["kinds"]
+            if DUP_COLUMNS and nseg == 2 and "endpoints" in r["kinds"] and (not ctx.quick or n_end % 8 == 0):
+                # the shared end point as two coincident columns, in every orientation and order
+                for f0, f1, order in itertools.product((False, True), (False, True), ([0, 1], [1, 0])):
+                    cases.append(make_case(segs, dict(flips=[f0, f1], order=order, shared=False, tags=[[10, 1], [11, 0]])))
+                    ctx.case(key=(nseg, "endpoints", "separate columns"))
+                    ctx.extra["pairs_dup_all_orientations"] = ctx.extra.get("pairs_dup_all_orientations", 0) + 1
     nseed = 0
     for nseg, n in ((3, 400), (4, 600)) if ctx.quick else ((3, 6000), (4, 12000)):
         for segs in _seeded(ctx.rng, 4, nseg, n):
